@@ -29,8 +29,11 @@ package commitlog
 // announced epochs) at each operation comes from an in-process reference run
 // of the same deterministic workload.
 //
-// Workloads: the first base plans and the first plans of the interleave family
-// (c05InterPlans).  In the latter the child's hook handler performs the
+// Workloads: the first base plans, the first plans of the interleave family
+// (c05InterPlans) and the first plans of the family of truncations at or below
+// the HW (c05BelowPlans; a kill inside an operation is judged against the larger
+// of the in-memory HW before and after it, a kill between operations against
+// the one after).  In the latter the child's hook handler performs the
 // operations a plan interleaves with a cleaner pass (no image, no kill); all of
 // them lie inside the bracket of the C operation, so for a kill inside that
 // bracket the messages they append are the in-flight batch (c05SysReference).
@@ -280,8 +283,16 @@ type c05SysOpState struct {
 	Elected  map[uint64]bool
 	Suspect  map[uint64]bool
 	After    []vfRec
+	// HWBefore / HWAfter: the HW the log held in memory when the operation
+	// started / had returned (c05Exec.memHW).  A kill inside the operation is
+	// judged against the larger of the two (which of them the process held at
+	// that instant is not known), a kill after it against HWAfter.
+	HWBefore int64
 	HWAfter  int64
-	Done     bool
+	// EndBefore / EndAfter: c05Exec.endSlack before / after the operation
+	EndBefore int64
+	EndAfter  int64
+	Done      bool
 }
 
 // c05SysReference runs the plan in-process (no crash) and records the model
@@ -302,7 +313,7 @@ func c05SysReference(plan c05Plan, fail func(fp, what string)) []*c05SysOpState 
 	ex.onOp = func(num int, before bool) {
 		if before {
 			st := &c05SysOpState{Kind: ex.opKind, Pre: append([]vfRec(nil), ex.pre...), InFlight: append([]vfRec(nil), ex.inflight...),
-				Required: map[int64]bool{}, Elected: cpE(ex.elected)}
+				Required: map[int64]bool{}, Elected: cpE(ex.elected), HWBefore: ex.memHW(), EndBefore: ex.endSlack, EndAfter: -1}
 			for k := range ex.required {
 				st.Required[k] = true
 			}
@@ -311,7 +322,12 @@ func c05SysReference(plan c05Plan, fail func(fp, what string)) []*c05SysOpState 
 		}
 		st := states[num]
 		st.After = append([]vfRec(nil), ex.model...)
-		st.HWAfter = ex.hw
+		st.HWAfter = ex.memHW()
+		if st.Kind == "T" {
+			st.EndAfter = ex.endSlack // sampled by the T operation itself
+		} else {
+			st.EndAfter = st.EndBefore // only a truncation moves the log end back
+		}
 		st.Done = true
 		st.Suspect = cpE(ex.suspect)
 		if st.Kind == "C" {
@@ -435,7 +451,7 @@ type c05SysCase struct {
 func TestVerifC05SyscallKill(t *testing.T) {
 	rep := kit.NewReport("C05", "syscallkill")
 	defer rep.Write()
-	rep.SetRule("fault injection at system-call granularity, independent of hook points: a child process runs a seeded C05 workload (Append and AppendMessageSet with rolls, epoch bumps on appended and replicated messages incl. replicated sets spanning epoch boundaries, operations interleaved with a cleaner pass by the hook handler, NewLeaderEpoch, HW moves + explicit checkpoints, truncations incl. exactly at a segment base / the first offset of the latest epoch / the newest offset, Clean with retention and compaction, Close) under `strace -e inject=<set>:signal=SIGKILL:when=N` and dies on entering the N-th call of <set> (openat | write | rename* | fsync | ftruncate | unlink*; N counts per thread); (set, N) pairs are derived from an uninjected calibration trace of each workload so that every observed (operation kind, system call, kind of file) combination is aimed at, plus seeded random pairs; the directory is recovered with commitlog.New (which must succeed) and judged by the same oracle as the snapshot unit, the in-flight operation being known from marker calls in the trace; distinct non-trivial = distinct (workload, operation, system call, file, N) crash instants inside the log's life (after the first open started)")
+	rep.SetRule("fault injection at system-call granularity, independent of hook points: a child process runs a seeded C05 workload (Append and AppendMessageSet with rolls, epoch bumps on appended and replicated messages incl. replicated sets spanning epoch boundaries, operations interleaved with a cleaner pass by the hook handler, NewLeaderEpoch, HW moves + explicit checkpoints, truncations incl. exactly at a segment base / the first offset of the latest epoch / the newest offset, truncations at or below the HW after a checkpoint by a tick or by a clean restart (family of unit belowhw), Clean with retention and compaction, Close) under `strace -e inject=<set>:signal=SIGKILL:when=N` and dies on entering the N-th call of <set> (openat | write | rename* | fsync | ftruncate | unlink*; N counts per thread); (set, N) pairs are derived from an uninjected calibration trace of each workload so that every observed (operation kind, system call, kind of file) combination is aimed at, plus seeded random pairs; the directory is recovered with commitlog.New (which must succeed) and judged by the same oracle as the snapshot unit, the in-flight operation being known from marker calls in the trace; distinct non-trivial = distinct (workload, operation, system call, file, N) crash instants inside the log's life (after the first open started)")
 	rep.Assume("process-crash model: the OS keeps the effects of every system call that returned before the kill; the call being entered has no effect; other threads' calls in progress may or may not have taken effect")
 	rep.Assume("the in-process reference run and the child execute the same deterministic workload (validated by the kill unit's snapshot-vs-kill comparison)")
 	strace, err := exec.LookPath("strace")
@@ -463,15 +479,18 @@ func TestVerifC05SyscallKill(t *testing.T) {
 	// family; the child is told the index in c05Plans() (= plan ID)
 	var plans []c05Plan
 	{
-		base, inter := c05FamilyPlans(""), c05FamilyPlans("inter")
-		nb, ni := kit.Scale(6, 30), kit.Scale(4, 14)
+		base, inter, below := c05FamilyPlans(""), c05FamilyPlans("inter"), c05FamilyPlans("below")
+		nb, ni, nl := kit.Scale(6, 30), kit.Scale(4, 14), kit.Scale(2, 6)
 		if nb > len(base) {
 			nb = len(base)
 		}
 		if ni > len(inter) {
 			ni = len(inter)
 		}
-		plans = append(append(plans, base[:nb]...), inter[:ni]...)
+		if nl > len(below) {
+			nl = len(below)
+		}
+		plans = append(append(append(plans, base[:nb]...), inter[:ni]...), below[:nl]...)
 	}
 	nplans := len(plans)
 	budget := kit.Scale(210, 2400)
@@ -656,6 +675,14 @@ func TestVerifC05SyscallKill(t *testing.T) {
 			img.Pre, img.InFlight, img.Required, img.Elected = st.Pre, st.InFlight, st.Required, st.Elected
 			img.Suspect = st.Suspect
 			img.HW = st.HWAfter
+			if st.HWBefore > img.HW {
+				img.HW = st.HWBefore
+			}
+			for _, v := range []int64{st.EndBefore, st.EndAfter} {
+				if v >= 0 {
+					img.EndAlt = append(img.EndAlt, v)
+				}
+			}
 			if !st.Done {
 				rep.Inconc(fmt.Sprintf("plan %d: operation %d did not complete in the reference run", c.Plan, inOp-1))
 				return
@@ -670,6 +697,9 @@ func TestVerifC05SyscallKill(t *testing.T) {
 			img.Pre, img.InFlight, img.Required, img.Elected = st.After, nil, c05AllRequired(st.After), st.Elected
 			img.Suspect = st.Suspect
 			img.HW = st.HWAfter
+			if st.EndAfter >= 0 {
+				img.EndAlt = append(img.EndAlt, st.EndAfter)
+			}
 		}
 		combo := img.OpKind + "/" + hit.Name + "/" + hit.Kind
 		img.Point = "sys." + strings.ReplaceAll(combo, "/", ".")
